@@ -244,6 +244,62 @@ func checkC11(p *Prog, r *Report) {
 	}
 	_ = snV
 
+	// ---- D2 (continued): the sequence number the reset test looks at is the one of the header whose id was read
+	{
+		snOff := p.ConstInt("IKCP_SN_OFFSET")
+		n := 0
+		ast.Inspect(lp.Body, func(x ast.Node) bool {
+			cc, ok := x.(*ast.CaseClause)
+			if !ok {
+				return true
+			}
+			offs := map[string]int64{}
+			var pos ast.Node
+			for _, st := range cc.Body {
+				ast.Inspect(st, func(y ast.Node) bool {
+					as, ok := y.(*ast.AssignStmt)
+					if !ok || len(as.Lhs) != 1 || len(as.Rhs) != 1 {
+						return true
+					}
+					id, ok := as.Lhs[0].(*ast.Ident)
+					if !ok {
+						return true
+					}
+					t := p.Term(as.Rhs[0])
+					if t.Op == "call" && t.Obj != nil && t.Obj.Name() == "Uint32" && len(t.Args) > 0 {
+						a := t.Args[len(t.Args)-1]
+						off := int64(0)
+						if a.Op == "slice" && a.Args[1] != nil && a.Args[1].IsConst() && a.Args[2] == nil {
+							off = a.Args[1].Int
+						} else if a.Op != "var" {
+							return true
+						}
+						switch o := p.Info.Uses[id]; {
+						case o != nil && o == types.Object(convV):
+							offs["conv"] = off
+						case o != nil && snV != nil && o == types.Object(snV):
+							offs["sn"] = off
+						case id.Name == "sn" && snV == nil:
+							offs["sn"] = off
+						}
+						pos = as
+					}
+					return true
+				})
+			}
+			co, hasC := offs["conv"]
+			so, hasS := offs["sn"]
+			if hasC && hasS {
+				n++
+				r.check(so-co == snOff, "C11.D2", lp.Name, p.Pos(pos), "sn read relative to the header whose conv was read", fmt.Sprintf("conv at %d, sn at %d = conv + IKCP_SN_OFFSET", co, so), fmt.Sprintf("the conversation id is read at offset %d but the sequence number at %d (expected %d): the 'new conversation starts at sn == 0' test looks at other header bytes — a genuine reconnect from the same address is ignored, or a stale packet of another conversation resets the live session", co, so, co+snOff))
+			}
+			return true
+		})
+		if n == 0 {
+			r.bad("C11.D2", lp.Name, p.Pos(lp.Node), "sn read relative to the header whose conv was read", "no arm of the listener reads both conv and sn", "")
+		}
+	}
+
 	// ---- D3
 	fAcc := p.Field("Listener", "chAccepts")
 	backlog := p.ConstInt("acceptBacklog")
@@ -355,6 +411,38 @@ func checkC11(p *Prog, r *Report) {
 								}
 							}
 							ok, what = all, "the closing session's remote (or the datagram's source)"
+						default:
+							// a helper (e.g. an extracted lookup): every caller passes the datagram's source or a session's remote
+							idx := -1
+							for i := 0; ; i++ {
+								o := root.paramObj(p, i)
+								if o == nil {
+									break
+								}
+								if o == v {
+									idx = i
+								}
+							}
+							sites := p.CallsTo(root.Obj)
+							all := idx >= 0 && root.Obj != nil && len(sites) > 0
+							for _, cs := range sites {
+								if idx >= len(cs.Call.Args) {
+									all = false
+									continue
+								}
+								at := p.Term(cs.Call.Args[idx])
+								isRemote := at.Op == "fld" && at.Obj == p.Field("UDPSession", "remote")
+								isSource := false
+								if at.Op == "var" {
+									if pv, okp := at.Obj.(*types.Var); okp && p.isParam(pv) && strings.HasSuffix(pv.Type().String(), "net.Addr") && rootFuncInfo(cs.Fn).Name == "(*Listener).packetInput" {
+										isSource = true
+									}
+								}
+								if !isRemote && !isSource {
+									all = false
+								}
+							}
+							ok, what = all, "helper called with the datagram's source / a session's remote"
 						}
 					}
 				}
